@@ -17,61 +17,11 @@
 (* Tallies: 11 events judged, 12 with knot in the first piece's domain,    *)
 (*          13 with >= 2 pieces, 14 log events.                            *)
 (***************************************************************************)
-EXTENDS TraceBase, BigPoly
+EXTENDS TraceBase, PwForms
 
-LF == INSTANCE LogForms WITH Zero <- BRZero, One <- BROne, Add <- BRAdd, Sub <- BRSub, Mul <- BRMul, Div <- BRDiv,
-                              Neg <- BRNeg, Abs <- BRAbs, Leq <- BRLe, FromInt <- BR, Ln <- LnApprox, R5 <- ExpTail
 P == INSTANCE Piecewise
 
 TraceInit == TallyInit /\ l = 1
-
-KAPPA == 256
-Slack == BRPow2(-150)
-Finite(bs) == \A i \in 1..Len(bs) : IsFinite(bs[i])
-Rest(s) == [i \in 1..(Len(s) - 1) |-> s[i + 1]]
-TolOf(mag, steps) == BRMul(BRMul(BRAdd(BRMul(BR(KAPPA), U), Slack), BR(steps)), mag)
-Near(x, y, mag, steps) == LeTracked(BRAbs(BRSub(x, y)), TolOf(mag, steps))
-
-\* ------------------------------------------------------------------ per-kind semantics
-\* lx = ln x (only used by the log kind; BRZero otherwise)
-LnIf(log, x) == IF log THEN LnApprox(x) ELSE BRZero
-
-\* exact antiderivative of piece p at x
-Anti(log, p, x, lx) == IF log THEN BRMul(x, B!Eval(B!LogIndef(p), lx)) ELSE B!Eval(B!Indef(p), x)
-\* magnitude of the terms of that antiderivative
-AntiMag(log, p, x, lx) ==
-    IF log THEN BRMul(x, B!AbsEval(LF!LogIndefMag(p), BRAbs(lx))) ELSE B!AbsEval(B!Indef(p), x)
-\* the quartic form's own term magnitudes (they are larger than AntiMag and cancel)
-QMag(p, x, lx) ==
-    LET Mf == LF!QuarticIndefMag(p)  xx == BRNeg(lx) IN
-    \* (1 + 2|x|/KAPPA): the unavoidable |x| 2^-53 relative error of e^x, x = -ln t rounded to one ulp
-    BRMul(x, BRAdd(B!AbsEval(<< BRZero, Mf[1], Mf[2], Mf[3], Mf[4] >>, xx),
-                   BRMul(BRMul(Mf[5], BRAbs(BRMul(B!Pow(xx, 5), ExpTail(xx)))),
-                         BRAdd(BROne, BRDiv(BRMul(BR(2), BRAbs(xx)), BR(KAPPA))))))
-PieceMag(log, p, x, lx) == IF log /\ Len(p) = 5 THEN BRAdd(QMag(p, x, lx), LF!QuarticIndefMag(p)[1]) ELSE AntiMag(log, p, x, lx)
-
-\* exact value at x of a returned integrated piece r (flattened form, numbers already decoded)
-FormVal(log, quartic, r, x, lx) ==
-    IF ~log THEN B!Eval(r, x)
-    ELSE IF quartic THEN
-         LET xx == BRNeg(lx) IN
-         BRAdd(r[1], BRMul(x, BRAdd(B!Eval(<< BRZero, r[2], r[3], r[4], r[5] >>, xx),
-                                    BRMul(r[6], BRMul(B!Pow(xx, 5), ExpTail(xx))))))
-    ELSE BRAdd(r[1], BRMul(x, B!Eval(Rest(r), lx)))
-
-\* every number of the returned piece except its additive constant is the antiderivative construction
-LanesOK(log, p, rb) ==
-    IF ~log THEN
-        /\ Len(rb) = Len(p) + 1
-        /\ \A i \in 1..Len(p) : IsFinite(rb[i + 1]) /\ IsFlOf(rb[i + 1], BRDiv(p[i], BR(i)))
-    ELSE IF Len(p) = 5 THEN
-        LET fx == B!QuarticIndef(p)  Mf == LF!QuarticIndefMag(p) IN
-        /\ Len(rb) = 6
-        /\ \A i \in 1..5 : Near(Val(rb[i + 1]), fx[i], Mf[i], 1)
-    ELSE
-        LET qx == B!LogIndef(p)  Mq == LF!LogIndefMag(p) IN
-        /\ Len(rb) = Len(p) + 1
-        /\ \A i \in 1..Len(p) : Near(Val(rb[i + 1]), qx[i], Mq[i], 1)
 
 \* running sum of a sequence, as a concrete sequence (TLC would re-evaluate a recursive function
 \* definition at every application): Acc(s)[j] = s[1] + ... + s[j]
